@@ -55,6 +55,9 @@ def main():
     man = json.load(open(os.path.join(V, "MANIFEST.json")))
     claimed = [c["property_id"] for c in man["checks"]]
     tmp = tempfile.mkdtemp(prefix="ovm_benign_")
+    sys.path.insert(0, V)
+    from ovmverif import extract
+    extract.gen_config()  # generated config headers for the compile test below
     res = {}
     try:
         for name in names:
